@@ -557,6 +557,46 @@ def main(argv):
             corr_cases.append((idx, v))
         elif v & 4:
             pass
+    # Timing-sensitive harnesses (trace validation of concurrent code): a small number of
+    # failing cases is re-executed from its replay form before it is believed; a genuine
+    # divergence or violation reproduces, a scheduling artefact of one run does not.
+    unreproduced = 0
+    if prop.get("confirm_by_replay") and not replay and 0 < len(viol_cases) + len(corr_cases) <= 8:
+        def confirm(idx):
+            rec = case_by_index(rundir, idx) or {}
+            tmp = os.path.join(WORK, "confirm-%s-%d-%d.json" % (pid, os.getpid(), idx))
+            with open(tmp, "w") as f:
+                json.dump({"case": rec.get("case"), "harness_index": rec.get("harness_index", 0)}, f)
+            cdir = rundir + "-confirm"
+            try:
+                m2, e2 = run_harness(prop, tier, seed, cdir, tmp)
+                if e2:
+                    return True  # cannot re-run: keep the original verdict
+                if (m2.get("crashes") or []):
+                    return True
+                f2, ee2 = eval_shards(cdir)
+                return bool(ee2) or any(v & 3 for (_, _, v) in f2)
+            finally:
+                shutil.rmtree(cdir, ignore_errors=True)
+                try:
+                    os.remove(tmp)
+                except OSError:
+                    pass
+        kept_v, kept_c = [], []
+        for idx, v in viol_cases:
+            if confirm(idx):
+                kept_v.append((idx, v))
+            else:
+                unreproduced += 1
+        for idx, v in corr_cases:
+            if confirm(idx):
+                kept_c.append((idx, v))
+            else:
+                unreproduced += 1
+        viol_cases, corr_cases = kept_v, kept_c
+        if unreproduced:
+            notes.append("%d failing case(s) of this run did not reproduce when re-executed from their replay form and were not counted" % unreproduced)
+
     for cls, idxs in known_hits.items():
         for kf in known:
             if kf.get("class") == cls:
